@@ -1829,7 +1829,17 @@ def iter_next_multi(i, fr, st, pc, it):
                 else:
                     res.append((o.state, o.pc, Opaque("map", (cur2, clos)), o.value))
         return res, others
-    if k in ("enumerate", "rev", "take", "step_by", "chain", "zip") and _has_split_adaptor(it):
+    if k == "enumerate" and _has_split_adaptor(it):
+        inner, cnt = it.data
+        subs, oth = iter_next_multi(i, fr, st, pc, inner)
+        return [(s1, p1, Opaque("enumerate", (cur2, cnt if item is None else usize(cnt.val + 1))), None if item is None else Agg("tuple", None, 0, (cnt, item))) for s1, p1, cur2, item in subs], oth
+    if k == "take" and _has_split_adaptor(it):
+        inner, cnt = it.data
+        if cnt.val == 0:
+            return [(st, pc, it, None)], []
+        subs, oth = iter_next_multi(i, fr, st, pc, inner)
+        return [(s1, p1, Opaque("take", (cur2, usize(cnt.val - 1))), item) for s1, p1, cur2, item in subs], oth
+    if k in ("rev", "step_by", "chain", "zip") and _has_split_adaptor(it):
         raise Undecided("adaptor %s over a filter/map" % k)
     it2, item = iter_next(i, st, it)
     return [(st, pc, it2, item)], []
@@ -3549,6 +3559,199 @@ TABLE.update({
     "core::str::from_utf8": str_from_utf8,
     "std::str::from_utf8_unchecked": str_from_utf8,
     "core::str::from_utf8_unchecked": str_from_utf8,
+})
+
+
+def array_from_fn(i, fr, st, pc, a, t, fn, r):
+    """std::array::from_fn(f): [f(0), f(1), .., f(N-1)]"""
+    info = r or fn
+    n = None
+    for x in (info.get("args") or []):
+        if isinstance(x, dict) and x.get("k") == "const":
+            c = x.get("c")
+            if isinstance(c, dict) and c.get("k") == "param":
+                n = fr.env.get(c.get("name"))
+            elif isinstance(c, dict):
+                n = c.get("val", c.get("v"))
+            elif isinstance(c, int):
+                n = c
+    if not isinstance(n, int):
+        raise Undecided("array::from_fn length")
+    work = [(st, pc, [], 0)]
+    outs = []
+    while work:
+        s_, p_, acc, k = work.pop()
+        if k == n:
+            outs.append(Outcome("return", s_, p_, Arr(acc)))
+            continue
+        for o in call_closure(i, fr, s_, p_, a[0], [usize(k)]):
+            if o.kind != "return":
+                outs.append(o)
+            else:
+                work.append((o.state, o.pc, acc + [o.value], k + 1))
+        if len(work) + len(outs) > i.max_paths:
+            raise Undecided("path budget in array::from_fn")
+    return outs
+
+
+TABLE.update({
+    "std::array::from_fn": array_from_fn,
+    "std::iter::zip": it_zip2,
+})
+
+
+# ---------------------------------------------------------------------------------- refactor round C idioms
+def int_default(i, fr, st, pc, a, t, fn, r):
+    ty = ((r or fn).get("args") or [{}])[0]
+    m_ = _re_mod.match(r"^<([ui])(\d+|size) as ", (r or fn).get("path", "") or "")
+    if m_:
+        return _ret(i, st, pc, W(64 if m_.group(2) == "size" else int(m_.group(2)), val=0, signed=m_.group(1) == "i"))
+    if "<bool as " in ((r or fn).get("path", "") or ""):
+        return _ret(i, st, pc, wbool(False))
+    if isinstance(ty, dict) and ty.get("k") in ("uint", "int"):
+        return _ret(i, st, pc, W(ty.get("w", 64), val=0, signed=ty.get("k") == "int"))
+    if isinstance(ty, dict) and ty.get("k") == "bool":
+        return _ret(i, st, pc, wbool(False))
+    raise Undecided("Default of %r" % (ty,))
+
+
+def as_slice_view(i, fr, st, pc, a, t, fn, r):
+    p = a[0]
+    v = i.read_ptr(st, p) if isinstance(p, Ptr) and p.sl is None else p
+    if isinstance(v, Ptr) and v.sl is not None:
+        return _ret(i, st, pc, Ptr(v.cell, v.path, v.sl, "ref"))
+    if isinstance(v, Arr):
+        return _ret(i, st, pc, Ptr(p.cell, p.path, (0, len(v.elems)), "ref"))
+    raise Undecided("as_slice of %r" % (v,))
+
+
+def ordering_is(i, fr, st, pc, a, t, fn, r):
+    v = a[0]
+    nm = fn["name"]
+    if isinstance(v, Agg):
+        c = v.variant - 1
+        return _ret(i, st, pc, wbool({"is_eq": c == 0, "is_ne": c != 0, "is_lt": c < 0, "is_gt": c > 0, "is_le": c <= 0, "is_ge": c >= 0}[nm]))
+    if isinstance(v, Opaque) and v.kind == "lexcmp" and nm in ("is_ne", "is_eq"):
+        la, lb = v.data
+        acc = wbool(True)
+        for x, y in zip(la, lb):
+            acc = b_and(acc, w_eq(x, y))
+        return _ret(i, st, pc, acc if nm == "is_eq" else b_not(acc))
+    if isinstance(v, Opaque) and v.kind == "lexcmp" and nm == "is_lt":
+        return is_lt(i, fr, st, pc, a, t, fn, r)
+    raise Undecided("%s on %r" % (nm, v))
+
+
+def int_clamp(i, fr, st, pc, a, t, fn, r):
+    x, lo, hi = a
+    if not all(isinstance(v, W) and v.val is not None for v in (x, lo, hi)):
+        raise Undecided("symbolic clamp")
+    if lo.val > hi.val:
+        return i.panic(st, pc, "assertion failed: min <= max", fr, t)
+    return _ret(i, st, pc, W(x.width, val=min(max(x.val, lo.val), hi.val), signed=x.signed))
+
+
+def vec_extend_from_within(i, fr, st, pc, a, t, fn, r):
+    vp, rg = a
+    h = i.read_ptr(st, vp)
+    elems = list(i.slice_elems(st, h))
+    vals = [i.read_ptr(st, e) if isinstance(e, Ptr) and e.sl is None else e for e in elems]
+    lo, hi = 0, len(vals)
+    if isinstance(rg, Agg) and rg.fields:
+        nm = rg.key or ""
+        f_ = [x.val for x in rg.fields]
+        if any(x is None for x in f_):
+            raise Undecided("symbolic range")
+        if "RangeFrom" in nm:
+            lo = f_[0]
+        elif "RangeTo" in nm:
+            hi = f_[0]
+        elif len(f_) >= 2:
+            lo, hi = f_[0], f_[1]
+    if lo > hi or hi > len(vals):
+        return i.panic(st, pc, "range out of bounds", fr, t)
+    _vec_set(i, st, vp, vals + vals[lo:hi])
+    return _ret(i, st, pc, UNIT)
+
+
+def box_new(i, fr, st, pc, a, t, fn, r):
+    cell = new_cell()
+    st.mem[cell] = a[0]
+    return _ret(i, st, pc, Ptr(cell, (), None, "box"))
+
+
+def iter_lt_family(i, fr, st, pc, a, t, fn, r):
+    """Iterator::lt / le / gt / ge / eq / ne: from the lexicographic comparison of the two item sequences"""
+    outs = []
+    for o in iterator_cmp(i, fr, st, pc, a, t, dict(fn, name="cmp"), r):
+        if o.kind != "return":
+            outs.append(o)
+            continue
+        v = o.value
+        nm = fn["name"]
+        if isinstance(v, Agg):
+            c = v.variant - 1
+            outs.append(Outcome("return", o.state, o.pc, wbool({"lt": c < 0, "le": c <= 0, "gt": c > 0, "ge": c >= 0, "eq": c == 0, "ne": c != 0}[nm])))
+        elif isinstance(v, Opaque) and v.kind == "lexcmp" and nm == "lt":
+            outs += is_lt(i, fr, o.state, o.pc, [v], t, fn, r)
+        else:
+            raise Undecided("Iterator::%s on %r" % (nm, v))
+    return outs
+
+
+TABLE.update({
+    "<u8 as std::default::Default>::default": int_default, "<u16 as std::default::Default>::default": int_default,
+    "<u32 as std::default::Default>::default": int_default, "<u64 as std::default::Default>::default": int_default,
+    "<usize as std::default::Default>::default": int_default, "<bool as std::default::Default>::default": int_default,
+    "std::vec::Vec::<T, A>::as_mut_slice": as_slice_view, "std::vec::Vec::<T, A>::as_slice": as_slice_view,
+    "std::array::<impl [T; N]>::as_mut_slice": as_slice_view, "std::array::<impl [T; N]>::as_slice": as_slice_view,
+    "std::cmp::Ordering::is_ne": ordering_is, "std::cmp::Ordering::is_eq": ordering_is, "std::cmp::Ordering::is_gt": ordering_is,
+    "std::cmp::Ordering::is_le": ordering_is, "std::cmp::Ordering::is_ge": ordering_is,
+    "std::cmp::impls::<impl std::cmp::Ord for usize>::clamp": int_clamp, "std::cmp::Ord::clamp": int_clamp,
+    "std::vec::Vec::<T, A>::extend_from_within": vec_extend_from_within,
+    "std::boxed::Box::<T>::new": box_new,
+    "std::iter::Iterator::lt": iter_lt_family, "std::iter::Iterator::le": iter_lt_family, "std::iter::Iterator::gt": iter_lt_family,
+    "std::iter::Iterator::ge": iter_lt_family,
+})
+
+
+def refcell_new(i, fr, st, pc, a, t, fn, r):
+    """RefCell / Cell as a transparent box (dynamic borrow conflicts are not modelled: assumed absent)"""
+    cell = new_cell()
+    st.mem[cell] = a[0]
+    return _ret(i, st, pc, Ptr(cell, (), None, "box"))
+
+
+def refcell_borrow(i, fr, st, pc, a, t, fn, r):
+    v = i.read_ptr(st, a[0]) if isinstance(a[0], Ptr) else a[0]
+    if isinstance(v, Ptr) and v.kind == "box":
+        return _ret(i, st, pc, Ptr(v.cell, v.path, v.sl, "ref"))
+    raise Undecided("borrow of %r" % (v,))
+
+
+def refcell_into_inner(i, fr, st, pc, a, t, fn, r):
+    v = a[0]
+    if isinstance(v, Ptr):
+        return _ret(i, st, pc, i.read_ptr(st, v))
+    raise Undecided("into_inner of %r" % (v,))
+
+
+def ref_guard_deref(i, fr, st, pc, a, t, fn, r):
+    """Deref / DerefMut of a Ref / RefMut guard (modelled as the reference itself): &guard -> the reference"""
+    v = i.read_ptr(st, a[0]) if isinstance(a[0], Ptr) else a[0]
+    if isinstance(v, Ptr):
+        return _ret(i, st, pc, v)
+    return _ret(i, st, pc, a[0])
+
+
+TABLE.update({
+    "std::cell::RefCell::<T>::new": refcell_new,
+    "std::cell::RefCell::<T>::borrow": refcell_borrow,
+    "std::cell::RefCell::<T>::borrow_mut": refcell_borrow,
+    "std::cell::RefCell::<T>::into_inner": refcell_into_inner,
+    "<std::cell::Ref<'_, T> as std::ops::Deref>::deref": ref_guard_deref,
+    "<std::cell::RefMut<'_, T> as std::ops::Deref>::deref": ref_guard_deref,
+    "<std::cell::RefMut<'_, T> as std::ops::DerefMut>::deref_mut": ref_guard_deref,
 })
 
 
